@@ -6,6 +6,7 @@ import ast
 import re
 
 from ..engine import rule
+from ..descriptors import _is_object_vector, _container_type
 from ..cxx_ir import CALL_KINDS, CTOR_KINDS, LOOP_KINDS
 from ..cfg import cfg_of, switch_arms
 from ..effects import PY, NEWREF, STEALS, external_effects
@@ -307,7 +308,7 @@ def w2(ctx):
             cn = cfg.cnode_of(c)
             # the agenda is cut back (pop_back loop or resize) before the callback runs
             shrinks = [x for x in calls_in(node, {'pop_back', 'resize'})
-                       if (member_path(x.call_base()) or '') == 'agenda' and
+                       if _is_object_vector(_container_type(prog, f, x.call_base())) and
                        cfg.cnode_of(x) is not None]
             if not any(cfg.dominates(cfg.cnode_of(x), cn) or
                        (cn in cfg.reachable_from([cfg.cnode_of(x)]) and
@@ -387,9 +388,18 @@ def f10(ctx):
     prog = ctx.cxx()
     f = prog.one('PyTreeSpec::FlattenWithPath')
     mt = calls_in(f.body, {'make_tuple'})
-    ok = bool(mt) and [member_path(strip_casts(a.call_args()[0] if a.kind in CALL_KINDS and
-                                               a.callee_name() == 'move' else a))
-                       for a in mt[-1].call_args()] == ['paths', 'leaves', 'treespec']
+    def role(a):
+        # by type, not by spelling: vector<py::tuple> are the paths, vector<py::object> the leaves
+        a = strip_casts(a.call_args()[0] if a.kind in CALL_KINDS and a.callee_name() == 'move' else a)
+        t = ((a.type or '') + ' ' + ((a.ref or {}).get('type') or '')) if a is not None else ''
+        if 'PyTreeSpec' in t:
+            return 'treespec'
+        if re.search(r'vector<.*tuple', t):
+            return 'paths'
+        if re.search(r'vector<.*(object|handle)', t):
+            return 'leaves'
+        return '?'
+    ok = bool(mt) and [role(a) for a in mt[-1].call_args()] == ['paths', 'leaves', 'treespec']
     ctx.check('FlattenWithPath/result-order', ok,
               'the engine returns (paths, leaves, treespec), the order ops.py unpacks',
               'FlattenWithPath returns its results in another order than ops.py unpacks', f.loc)
